@@ -87,7 +87,7 @@ def run(ctx):
         for _ in range(12):
             t = list(base)
             k = rng.randrange(lo, hi)
-            t[k] = rng.choice("gGzZ xX-+_.,:/@`é\x00")
+            t[k] = rng.choice([c for c in "gGzZ xX-+_.,:/@`é\x00" if c != t[k]])
             bad.append(("".join(t), None, cls))
     for v in (0, 1, 26, 29, 255, 0x1a, 0x35, 0x36):
         bad.append(("0x%064x%064x%02x" % (sigs[0][0], sigs[0][1], v), None, "bad-v"))
